@@ -56,6 +56,9 @@ CheckUnMarshal(e) ==
                             /\ e.back[k].contents = SubSeq(e.bytes, g[k].at, g[k].at + g[k].len - 1)
        IN
        /\ inInput \/ Mis("contents-not-in-input", e, Len(e.back))
+       \* the object that parsed these octets is marshalled again: 0x80 first, then exactly the units it holds (whatever the
+       \* input's own first octet was) - only when UnMarshal reported no error and the units it delivered are well formed
+       /\ (e.err \/ ~WF(e.back) \/ e.re = Marshal(e.back)) \/ Mis("marshal-after-unmarshal", e, IF Len(e.re) = 0 THEN -1 ELSE e.re[1])
        /\ IF Exact(e.bytes) THEN (~e.err /\ e.back = gs) \/ Mis("exact-input-refused", e, IF e.err THEN -1 ELSE Len(e.back))
           ELSE /\ (e.back = gs) \/ ~inInput \/ Div("unitsDropped", e, Tail3(e.bytes))
                /\ e.err \/ Div("accepted", e, Tail3(e.bytes))
